@@ -1839,8 +1839,8 @@ def analyse_tu(eng, cfg):
         for f in irrules.gch_roots(eng):
             if is_public(f) and wrong.start(f):
                 laws.walk(f, lambda: LawRule(laws, wrong))
-        flagged = set((r.rule, r.key['operation']) for r in wrong.reports.values() if not r.ok)
-        passed = set((r.rule, r.sample['operation']) for r in wrong.reports.values() if r.ok)
+        flagged = set((r.rule, r.key['operation']) for r in wrong.reports.values() if not r.ok and r.rule.startswith('R01'))
+        passed = set((r.rule, r.sample['operation']) for r in wrong.reports.values() if r.ok and r.rule.startswith('R01'))
         control = {'flagged': len(flagged), 'wrongly_passed': sorted(passed - flagged)[:10], 'passed_somewhere': len(passed)}
     return {'reports': list(spec.reports.values()), 'functions': n, 'decided': spec.decided, 'control': control,
             'undecided_paths': spec.undecided, 'undecided_ops': spec.undecided_ops,
